@@ -311,6 +311,7 @@ PROPS["C04"] = dict(
     assumptions=["QUIC peers run the stock TLS handshake", "the SSH adversary cannot produce signatures for keys it does not hold"],
     subs=[
         R("C04.p2pke_quic_attribution", "secure", "TestC04Attribution", 120, 5000, shrink=10, quick=dict(checks=120, shards=4, timeout=900)),
+        R("C04.p2pke_claimed_key_adversary", "secure", "TestC04P2PKEForger", 300, 15000, shrink=10, quick=dict(checks=300, shards=2, timeout=600)),
         R("C04.ssh_auth_step_adversary", "secure", "TestC04SSHAdversary", 60, 3000, shrink=10, quick=dict(checks=60, shards=2, timeout=600)),
     ],
 )
